@@ -67,7 +67,7 @@ Print Assumptions C12_main_root_within.
     percent-encoded id alone, e.g. `extensions`; such roots are refused by the guard above) *)
 Theorem C12_hashed_layouts_safe : forall (c : Layout.cfg) id dg p,
   (c_ext c = E0003 /\ c_ts c <> 0%N \/ c_ext c = E0004) ->
-  Layout.cfg_ok c = true -> inputs_ok c id dg = true -> known_c11 c id = false ->
+  Layout.cfg_ok c = true -> inputs_ok c id dg = true ->
   Layout.map c id dg = Ok p ->
   rel_safe p = true /\ first_is_extensions p = false /\ forall R, below R (main_root R p) = true.
 Proof. exact hashed_layouts_safe_lemma. Qed.
